@@ -155,7 +155,7 @@ def run_job(job):
                                        "text": vprogs.module_source(prog), "init_text": vprogs.init_source(prog)})
                     seg["meta"].append({"step": st})
             elif do == "probe":
-                seg["ops"].append({"op": "probe", "name": st["name"], "also": st.get("also", [])})
+                seg["ops"].append({"op": "probe", "name": st["name"], "also": st.get("also", []), "listfirst": bool(st.get("listfirst"))})
                 seg["meta"].append({"step": st})
             elif do == "deps":
                 seg["ops"].append({"op": "deps", "name": st["name"]})
